@@ -1303,6 +1303,51 @@ def render_script(rng, cmds, fancy=True):
     return txt
 
 
+MALFORMED_SHAPES = ["noclose", "noopen", "lower", "twoclose", "brackets", "digitname", "noname", "braces", "mixedcase"]
+
+
+def malform(shape, name, body):
+    """a command that no reading of the grammar NAME '(' args ')' accepts"""
+    if shape == "noclose":
+        return name + "(" + body
+    if shape == "noopen":
+        return name + " " + body + ")"
+    if shape == "lower":
+        return name.lower() + "(" + body + ")"
+    if shape == "twoclose":
+        return name + "(" + body + "))"
+    if shape == "brackets":
+        return name + "[" + body + "]"
+    if shape == "digitname":
+        return name + "2(" + body + ")"
+    if shape == "noname":
+        return "(" + body + ")"
+    if shape == "braces":
+        return name + "{" + body + "}"
+    return name[0] + name[1:].lower() + "(" + body + ")"
+
+
+def prefix_fault_history(rng, hid, N, cap, cmds, direct, fancy):
+    """a well-formed program whose command no. p is replaced by a syntactically malformed one; the graph after the
+    failed deploy_to() is compared with the direct calls of the first p commands"""
+    p = rng.below(len(cmds)) if rng.chance(1, 6) else 1 + rng.below(len(cmds) - 1)
+    j, cut = 0, 0
+    for k in range(p):                       # direct ops of the first p commands (a fresh variable costs a NEXT)
+        if direct[j] == "NEXT h":
+            j += 1
+        j += 1
+    cut = j
+    pieces = [render_script(rng, [c], fancy) for c in cmds]
+    name, args = cmds[p]
+    plain = render_script(rng, [(name, args)], fancy=False)          # NAME(a,b,c);
+    body = plain[plain.index("(") + 1:plain.rindex(")")]
+    shape = rng.pick(MALFORMED_SHAPES)
+    pieces[p] = (rnd_ws(rng) if fancy else "") + malform(shape, name, body) + (rnd_ws(rng) if fancy else "") + ";"
+    txt = "".join(pieces)
+    ops = ["NEW g %d" % cap, "SCRIPT g %s" % text_hex(txt), "NEW h %d" % cap] + direct[:cut] + ["SNAP h"]
+    return History(hid, N, ops, {"prefix": p, "shape": shape, "text": txt})
+
+
 class C14(Prop):
     pid = "C14"
     shrink_ok = False
@@ -1312,12 +1357,16 @@ class C14(Prop):
             "parenthesis, hex case and separators); deploy_to() on g is compared with the corresponding direct add/bind/put/"
             "next_id calls on a second graph h: equal final states (hook snapshot) and count == number of commands.  Every "
             "single-character deletion, substitution and insertion of a sample of these texts is deployed too and compared "
-            "with the model (Ok n / Err / panic and the full state).  Non-trivial = a program with a variable and a BIND; "
+            "with the model (Ok n / Err / panic and the full state).  In a further stream command no. p of a well-formed "
+            "program is replaced by a syntactically malformed one (nine shapes: missing or doubled parenthesis, brackets, "
+            "lower-case or digit in the name, no name): deploy_to() must return Err and leave exactly the graph the direct "
+            "calls of the first p commands produce.  Non-trivial = a program with a variable and a BIND; "
             "distinct = distinct program text")
 
     def generate(self, rng, tier):
         n = 400 if tier == "quick" else 20000
         nf = 25 if tier == "quick" else 600
+        npre = 200 if tier == "quick" else 6000
         hs = []
         for i in range(n):
             r = rng.fork()
@@ -1336,6 +1385,8 @@ class C14(Prop):
                     for j, mt in enumerate(muts):
                         hs.append(History("c14-fault%d-%d-%d" % (i, pos, j), N,
                                           ["NEW f %d" % cap, "SCRIPT f %s" % text_hex(mt), "KEYS f"], {"fault": True}))
+            if len(cmds) >= 2 and i < npre and not os.environ.get("VERIF_NO_W12"):
+                hs.append(prefix_fault_history(r, "c14-prefix%d" % i, N, cap, cmds, direct, fancy=(i % 5 != 0)))
         return hs
 
     def oracle(self, h, il):
@@ -1347,6 +1398,25 @@ class C14(Prop):
             if ml and len(ml) > 1 and len(il) > 1 and ml[1].startswith("SCRIPT -> err") and il[1].startswith("SCRIPT -> PANIC"):
                 return {"reason": "a syntactically malformed script makes deploy_to() panic instead of returning Err",
                         "index": 1, "expected": "err", "observed": "PANIC   text=" + repr(hex_text(h.ops[1].split()[2]))[:300]}
+            return None
+        if "prefix" in h.meta:
+            # "A syntactically malformed command yields Err rather than a panic, after the commands before it have
+            # been applied": g after the failed deploy_to() = h after the direct calls of the commands before the fault
+            if len(il) < len(h.ops):
+                return {"reason": "a malformed command after %d good ones: history ended early (panic)" % h.meta["prefix"],
+                        "index": len(il) - 1, "expected": "err", "observed": (il[-1][:200] if il else "") + " text=" + repr(h.meta["text"])[:300]}
+            try:
+                _, res, snap_g = split_line(il[1])
+                _, _, snap_h = split_line(il[-1])
+            except ValueError:
+                return None
+            if not res.startswith("err"):
+                return {"reason": "deploy_to() of a script whose command no. %d is syntactically malformed did not return Err"
+                                  % h.meta["prefix"], "index": 1, "expected": "err", "observed": res + " text=" + repr(h.meta["text"])[:300]}
+            if snap_g != snap_h:
+                return {"reason": "after the Err the graph is not the one the %d commands before the malformed one produce"
+                                  % h.meta["prefix"], "index": 1, "expected": str(snap_h)[:600],
+                        "observed": str(snap_g)[:500] + " text=" + repr(h.meta["text"])[:200]}
             return None
         if "count" not in h.meta:
             return None
